@@ -49,7 +49,7 @@ fn strategy(tier: Tier) -> BoxedStrategy<CloseCase> {
         proptest::collection::vec((0u8..2, any::<u8>(), val_strategy(ValSizes::Small)), 0..8),
         0u8..4,
         prop_oneof![3 => Just(0u32), 3 => 1u32..3000, 2 => 3000u32..30000],
-        proptest::collection::vec((0u8..4, any::<u8>()), 1..8),
+        proptest::collection::vec((prop_oneof![2 => Just(0u8), 4 => Just(1u8), 2 => Just(2u8), 1 => Just(3u8)], any::<u8>()), 1..12),
         any::<bool>(),
     )
         .prop_map(|(prefix, clones, drop_delay_us, post, reopen_at_once)| Cycle {
@@ -108,7 +108,23 @@ fn wait_until(limit: Duration, mut f: impl FnMut() -> bool) -> bool {
     }
 }
 
+/// Post-drop ops on a helper thread: an op that never returns must not take the harness with it.
 fn post_ops(handles: &[Handle], keys: &[Vec<u8>], post: &[(u8, u8)], tag: u64) -> Result<(), (String, String)> {
+    let (h, k, p) = (handles.to_vec(), keys.to_vec(), post.to_vec());
+    let (tx, rx) = std::sync::mpsc::channel();
+    std::thread::spawn(move || {
+        let _ = tx.send(post_ops_inner(&h, &k, &p, tag));
+    });
+    match rx.recv_timeout(Duration::from_secs(10)) {
+        Ok(r) => r,
+        Err(_) => Err((
+            "post-drop-op-hung".into(),
+            format!("{} operations through remaining handles of a dropped store did not all return within 10 s (an operation hangs instead of failing with 'closed')", post.len()),
+        )),
+    }
+}
+
+fn post_ops_inner(handles: &[Handle], keys: &[Vec<u8>], post: &[(u8, u8)], tag: u64) -> Result<(), (String, String)> {
     for (i, (kind, k)) in post.iter().enumerate() {
         let h = handles[i % handles.len()].clone();
         let key = Bytes::from(keys[pick(*k, keys.len())].clone());
@@ -238,6 +254,7 @@ fn exec(c: &CloseCase, env: &Env) -> Outcome {
         drop(store);
         // (1) every operation through any remaining handle fails with 'closed'
         if let Err(f) = post_ops(&handles, &keys, &cy.post, ci as u64) {
+            out.fatal = f.0 == "post-drop-op-hung";
             fail = Some((f.0, format!("cycle {}: {}", ci, f.1)));
             break;
         }
@@ -294,6 +311,7 @@ fn exec(c: &CloseCase, env: &Env) -> Outcome {
                 out.label("merge-was-in-flight-at-drop");
             }
             if let Err(f) = post_ops(&handles, &keys, &cy.post, 1000 + ci as u64) {
+                out.fatal = f.0 == "post-drop-op-hung";
                 fail = Some((f.0, format!("cycle {}: {}", ci, f.1)));
                 break;
             }
